@@ -36,6 +36,22 @@ gamma ** n_step, the combination, `+ prior_eps`, the indices) from the source te
 (`C18_source_translation_*`).  If the translator rejects the source or those proofs stop checking, that is a gate
 problem naming the broken equality; the stub suite below (exact read-back of every projected row, element-wise
 losses, indices, priorities; mass / mean / alone oracles) then supplies the failing input.
+
+Dueling head ("duel" suite; `py2lean_dueling.py` -> `lean/Gen/DuelingGen.lean`, `Proofs/DuelingGenEq.lean`,
+`C18_dueling_*` / `C18_source_translation_dueling_*`): real `RainbowQNetwork`s (1..4 actions, 2..11 atoms, batch 1..3),
+as constructed and after `recreate_network` / `clone` / the head's own `recreate_network` / `add_node` /
+`add_latent_node`.  "fed" cases: forward hooks on the head's two sub-networks return prescribed dyadic float64 logits
+(small, peaked so that atoms fall below the 1e-3 floor, flat, wide), so the real `forward` runs in float64; "real"
+cases: the hooks record what the (optionally sharpened) float32 sub-networks return.  Per batch row the model
+(`c51 duel new / comb / exp / logz / fwd`, namespace `Duel` of Model/C51.lean) gets the same logits as exact rationals,
+computes the combined logits exactly, receives `exp` of them and `log` of the row sums as float64 values from Python's
+`math` (the harness recomputes the combined logits and row sums and requires them to EQUAL the model's, so the tables
+are keyed by the model's own numbers) and returns `forward` for the four flag combinations; compared within 1e-9
+(fed) / 2e-5 (real).  Oracle on the implementation's own outputs: shapes, every entry >= 1e-3, mass in
+[1, 1 + N*1e-3], q = sum_j dist_j * support_j, argmax(q=True) = argmax of those expectations, exp(log=True) sums to
+one, log=True = log(q=False) above the floor and <= log(1e-3) at the floor, `q` ignored under `log`, the dueling
+identity (mean over actions of log-probabilities minus the value logits is constant over the atoms), and num_atoms /
+num_actions / support of the head after every rebuild.
 """
 from __future__ import annotations
 
@@ -849,6 +865,348 @@ def degenerate_configs(chk: Check):
                           f"projection has mass {mass} instead of {0.5 * N}", case)
 
 
+
+# ----------------------------------------------------------------------------- dueling head suite
+DUEL_TOL_FED = 1e-9       # float64 implementation vs exact model on float64 exp / log values
+DUEL_TOL_REAL = 2e-5      # float32 implementation (real weights)
+FLOOR = 1e-3
+
+
+def duel_build(case):
+    """a real RainbowQNetwork (tiny), optionally rebuilt / cloned / mutated; returns (net, support)"""
+    from gymnasium import spaces
+    from agilerl.networks.q_networks import RainbowQNetwork
+    A, N = case["A"], case["N"]
+    torch.manual_seed(case["seed"])
+    np.random.seed(case["seed"] % (2 ** 31))
+    random.seed(case["seed"])
+    support = torch.linspace(case["vmin"], case["vmax"], N)
+    net = RainbowQNetwork(spaces.Box(-1.0, 1.0, (3,), np.float32), spaces.Discrete(A), support=support,
+                          num_atoms=N, latent_dim=8, encoder_config={"hidden_size": [8]},
+                          head_config={"hidden_size": [8]})
+    rb = case.get("rebuild")
+    if rb == "recreate":
+        net.recreate_network()
+    elif rb == "clone":
+        net = net.clone()
+    elif rb == "head-recreate":
+        net.head_net.recreate_network()
+    elif rb == "add-node":
+        net.head_net.add_node()
+        net.recreate_network()
+    elif rb == "add-latent":
+        net.add_latent_node()
+    return net, support
+
+
+def duel_impl(case, forward_override=None):
+    """runs the real network with the case's logits fed in (forward hooks on the head's two sub-networks return
+    them) or with its own weights (the hooks record what the sub-networks return).  Returns the per-call outputs
+    and the logits each call saw."""
+    A, N, B = case["A"], case["N"], case["B"]
+    net, support = duel_build(case)
+    head = net.head_net
+    problems = []
+    if not (int(head.num_atoms) == N and int(head.num_actions) == A and int(net.num_atoms) == N
+            and tuple(head.support.shape) == (N,) and bool(torch.equal(head.support.cpu(), support))
+            and bool(torch.equal(net.support.cpu(), support))):
+        problems.append(f"after {case.get('rebuild') or 'construction'} the head has num_atoms={head.num_atoms} "
+                        f"num_actions={head.num_actions} support={head.support.tolist()} (expected {N}, {A}, "
+                        f"{support.tolist()})")
+    if case.get("peak"):
+        with torch.no_grad():
+            for name, prm in head.named_parameters():
+                if "sigma" not in name:
+                    prm.mul_(float(case["peak"]))
+    seen = {}
+    if case["mode"] == "fed":
+        V = torch.tensor(case["value"], dtype=torch.float64).reshape(B, N)
+        Ad = torch.tensor(case["adv"], dtype=torch.float64).reshape(B, A * N)
+        hooks = [head.model.register_forward_hook(lambda m, i, o: V.clone()),
+                 head.advantage_net.register_forward_hook(lambda m, i, o: Ad.clone())]
+    else:
+        hooks = [head.model.register_forward_hook(lambda m, i, o: seen.__setitem__("v", o.detach().clone())),
+                 head.advantage_net.register_forward_hook(lambda m, i, o: seen.__setitem__("a", o.detach().clone()))]
+    if forward_override is not None:
+        import types
+        head.forward = types.MethodType(forward_override, head)
+    gen = torch.Generator().manual_seed(case["seed"] + 5)
+    x = torch.randn(B, 3, generator=gen)
+    outs, logits = {}, {}
+    try:
+        with torch.no_grad():
+            for key, kwargs in (("q", {}), ("dist", {"q": False}), ("log", {"q": False, "log": True}),
+                                ("qlog", {"q": True, "log": True})):
+                outs[key] = net(x, **kwargs).to(torch.float64)
+                if case["mode"] == "fed":
+                    logits[key] = (V, Ad)
+                else:
+                    logits[key] = (seen["v"].to(torch.float64).reshape(B, N), seen["a"].to(torch.float64).reshape(B, A * N))
+    finally:
+        for h in hooks:
+            h.remove()
+    return outs, logits, support.to(torch.float64), problems
+
+
+def duel_oracle(case, outs, logits, support, tol):
+    """the property itself on the implementation's own outputs (independent of the Lean model)"""
+    A, N, B = case["A"], case["N"], case["B"]
+    P = []
+    q, dist, lp, qlp = outs["q"], outs["dist"], outs["log"], outs["qlog"]
+    scale = max(1.0, float(support.abs().max()))
+    if tuple(q.shape) != (B, A) or tuple(dist.shape) != (B, A, N) or tuple(lp.shape) != (B, A, N) or \
+            tuple(qlp.shape) != (B, A, N):
+        return [f"shapes: q {tuple(q.shape)} dist {tuple(dist.shape)} log {tuple(lp.shape)} / {tuple(qlp.shape)} for "
+                f"B={B} A={A} N={N}"]
+    for k, t in outs.items():
+        if not bool(torch.isfinite(t).all()):
+            return [f"forward({k}) returns a non-finite value"]
+    if float(dist.min()) < FLOOR - tol:
+        P.append(f"forward(q=False) has an entry {float(dist.min())} below the floor 1e-3")
+    mass = dist.sum(2)
+    if float(mass.min()) < 1 - tol * N or float(mass.max()) > 1 + N * FLOOR + tol * N:
+        P.append(f"mass of a returned distribution outside [1, 1 + N*1e-3]: min {float(mass.min())} max {float(mass.max())}")
+    q2 = (dist * support).sum(2)
+    if float((q - q2).abs().max()) > tol * scale * N:
+        b, a = divmod(int((q - q2).abs().argmax()), A)
+        P.append(f"forward(q=True)[{b},{a}] = {float(q[b, a])} is not the expectation {float(q2[b, a])} of "
+                 f"forward(q=False)[{b},{a}] = {dist[b, a].tolist()} over the support {support.tolist()}")
+    for b in range(B):
+        g1, g2 = int(q[b].argmax()), int(q2[b].argmax())
+        if g1 != g2 and abs(float(q2[b, g1] - q2[b, g2])) > 4 * tol * scale * N:
+            P.append(f"row {b}: argmax of forward(q=True) is action {g1}, argmax of the expectations of "
+                     f"forward(q=False) is action {g2} (means {q2[b].tolist()})")
+    if float((lp - qlp).abs().max()) > 0:
+        P.append("forward(q=True, log=True) differs from forward(q=False, log=True)")
+    if float((lp.exp().sum(2) - 1).abs().max()) > max(tol, 1e-12) * N * 10:
+        P.append(f"exp(forward(log=True)) does not sum to one: {lp.exp().sum(2).tolist()}")
+    ltol = max(tol * 50, 1e-7)
+    active = dist <= FLOOR * (1 + 1e-6)
+    free = dist > FLOOR * (1 + 1e-3)
+    if bool(free.any()) and float((lp[free] - dist[free].log()).abs().max()) > ltol * max(1.0, float(lp.abs().max())):
+        P.append("forward(log=True) is not log(forward(q=False)) on entries above the floor")
+    if bool(active.any()) and float((lp[active] - math.log(FLOOR)).max()) > ltol * max(1.0, float(lp.abs().max())):
+        P.append("an entry at the floor has forward(log=True) above log(1e-3)")
+    # dueling identity, observable form: mean_a logp[a, j] - value[j] does not depend on the atom j
+    V = logits["log"][0]
+    dev = lp.mean(1) - V
+    spread = float((dev - dev[:, :1]).abs().max())
+    if spread > ltol * max(1.0, float(V.abs().max()), float(lp.abs().max())) * 4:
+        P.append(f"dueling identity fails: mean over actions of the log-probabilities minus the value logits varies "
+                 f"over the atoms by {spread}")
+    for k in ("dist", "log", "qlog"):
+        if not (bool(torch.equal(logits[k][0], logits["q"][0])) and bool(torch.equal(logits[k][1], logits["q"][1]))):
+            P.append(f"the sub-networks return different logits for the same input in call `{k}`")
+    return P
+
+
+def duel_fracs(t):
+    return [F(float(v)) for v in t.reshape(-1).tolist()]
+
+
+def duel_model_lines(case, logits_row, support):
+    """driver ops for one batch row + what the harness itself expects for `comb` / the row sums (compared exactly,
+    so the exp / log tables it supplies are keyed by the model's own combined logits)"""
+    A, N = case["A"], case["N"]
+    v, a = duel_fracs(logits_row[0]), duel_fracs(logits_row[1])
+    sup = duel_fracs(support)
+    means = [sum(a[i * N + j] for i in range(A)) / A for j in range(N)]
+    comb = [[v[j] + a[i * N + j] - means[j] for j in range(N)] for i in range(A)]
+    M = max(max(r) for r in comb)
+    tab = {}
+    for r in comb:
+        for xq in r:
+            tab.setdefault(xq, F(math.exp(float(xq - M))))
+    sums = [sum(tab[xq] for xq in r) for r in comb]
+    logz = [F(math.log(float(z)) + float(M)) for z in sums]
+    sh = lambda xs: " ".join(show(xq) for xq in xs)
+    lines = [f"c51 duel new {A} {N} {sh(sup)} {sh(v)} {sh(a)}", "c51 duel comb",
+             "c51 duel exp " + sh([tab[xq] for r in comb for xq in r]), "c51 duel logz " + sh(logz),
+             "c51 duel fwd 1 0", "c51 duel fwd 0 0", "c51 duel fwd 0 1", "c51 duel fwd 1 1"]
+    expect = ["ok", " | ".join(sh(r) for r in comb), sh(sums), "ok"]
+    return lines, expect
+
+
+def duel_parse(line):
+    return [[float(F(w)) for w in part.split()] for part in line.split(" | ")]
+
+
+def duel_compare(case, outs, model_rows, support, tol):
+    """model_rows[b] = the four `fwd` answers of batch row b; returns the first disagreement or None"""
+    A, N = case["A"], case["N"]
+    scale = max(1.0, float(support.abs().max()))
+    for b, ans in enumerate(model_rows):
+        for key, line, sc in (("q", ans[0], scale * N), ("dist", ans[1], 1.0), ("log", ans[2], None), ("qlog", ans[3], None)):
+            if line in ("reject", "bad-op"):
+                return f"row {b}: the model answers {line!r} to forward({key})"
+            got = outs[key][b].reshape(-1).tolist()
+            want = [v for r in duel_parse(line) for v in r]
+            if len(got) != len(want):
+                return f"row {b}: forward({key}) has {len(got)} entries, the model {len(want)}"
+            for i, (g, w) in enumerate(zip(got, want)):
+                t = tol * (sc if sc is not None else 50 * max(1.0, abs(w)))
+                if not abs(g - w) <= t:
+                    return (f"row {b}: forward({key}) entry {i}: implementation {g!r} model {w!r} "
+                            f"(|diff| {abs(g - w):.3g} > {t:.3g})")
+    return None
+
+
+def duel_case_run(chk: Check, case, forward_override=None):
+    """returns dict(problems=[…], diff=str|None, floor_active=bool)"""
+    tol = DUEL_TOL_FED if case["mode"] == "fed" else DUEL_TOL_REAL
+    try:
+        outs, logits, support, problems = duel_impl(case, forward_override)
+    except Exception as e:  # noqa: BLE001
+        return {"problems": [f"implementation raised {type(e).__name__}: {e}"], "diff": None, "floor_active": False}
+    problems += duel_oracle(case, outs, logits, support, tol)
+    lines, expects = ["reset"], []
+    for b in range(case["B"]):
+        ln, ex = duel_model_lines(case, (logits["q"][0][b], logits["q"][1][b]), support)
+        lines += ln
+        expects.append(ex)
+    out = driver_run(chk, lines)[1:]
+    chk.corr["model_lines"] += len(lines) - 1
+    rows = []
+    for b in range(case["B"]):
+        o = out[8 * b: 8 * b + 8]
+        if o[:4] != expects[b]:
+            raise InfraError(f"C18 duel: the harness's exp / log tables are not keyed by the model's logits: model "
+                             f"{o[:4]} harness {expects[b]}")
+        rows.append(o[4:])
+    diff = duel_compare(case, outs, rows, support, tol) if tuple(outs["q"].shape) == (case["B"], case["A"]) else None
+    active = bool((outs["dist"] <= FLOOR * (1 + 1e-6)).any()) if outs["dist"].dim() == 3 else False
+    return {"problems": problems, "diff": diff, "floor_active": active}
+
+
+def gen_duel(rng: random.Random, mode: str):
+    A, N, B = rng.randint(1, 4), rng.randint(2, 11), rng.randint(1, 3)
+    delta = rng.choice([0.5, 1.0, 2.0])
+    vmin = rng.choice([-10.0, -2.0, 0.0, 1.0, -float(N - 1) * delta / 2])
+    case = {"kind": "duel", "mode": mode, "A": A, "N": N, "B": B, "vmin": vmin, "vmax": vmin + (N - 1) * delta,
+            "seed": rng.randrange(1 << 30),
+            "rebuild": rng.choice([None, None, "recreate", "clone", "head-recreate", "add-node", "add-latent"])}
+    if mode == "fed":
+        style = rng.choice(["small", "small", "peaked", "peaked", "flat", "wide"])
+        step = {"small": 8, "peaked": 8, "flat": 1, "wide": 2}[style]
+        rngv = {"small": 16, "peaked": 16, "flat": 0, "wide": 60}[style]
+        val, adv = [], []
+        for _ in range(B):
+            v = [rng.randint(-rngv, rngv) / step for _ in range(N)]
+            a = [rng.randint(-rngv, rngv) / step for _ in range(A * N)]
+            if style == "peaked":
+                v[rng.randrange(N)] += rng.choice([8.0, 12.0, 20.0, 40.0])
+                a[rng.randrange(A * N)] += rng.choice([0.0, 6.0, 15.0])
+            val.append(v)
+            adv.append(a)
+        case.update(value=val, adv=adv, style=style)
+    else:
+        case["peak"] = rng.choice([0, 0, 5.0, 20.0, 60.0])
+    return case
+
+
+def duel_shrink(chk: Check, case, res):
+    if case["mode"] != "fed" or case["B"] == 1:
+        return case, res
+
+    def sub(keep):
+        return dict(case, B=len(keep), value=[case["value"][i] for i in keep], adv=[case["adv"][i] for i in keep])
+
+    def bad(keep):
+        r = duel_case_run(chk, sub(keep))
+        return bool(r["problems"]) if res["problems"] else r["diff"] is not None
+    keep = ddmin(list(range(case["B"])), bad)
+    small = sub(keep)
+    r2 = duel_case_run(chk, small)
+    return (small, r2) if (r2["problems"] or r2["diff"]) else (case, res)
+
+
+def duel_report(chk: Check, case, res, origin=None):
+    replay = dict(case, oracle_problems=res["problems"], diff=res["diff"],
+                  correspondence="harness/c18.py (duel suite) vs namespace Duel of Model/C51.lean", origin=origin)
+    if res["problems"]:
+        chk.violation("dueling head: " + res["problems"][0], replay)
+    else:
+        chk.violation("dueling head: implementation and model disagree: " + res["diff"] +
+                      "; the property oracle holds on this case", replay, no_input=True)
+
+
+def run_duel(chk: Check, corpus_cases):
+    quick = chk.tier == "quick"
+    n_fed, n_real = (40, 14) if quick else (500, 120)
+    cases = [(c, ["corpus"], name) for c, name in corpus_cases]
+    cases += [(gen_duel(chk.rng, "fed"), [], None) for _ in range(n_fed)]
+    cases += [(gen_duel(chk.rng, "real"), [], None) for _ in range(n_real)]
+    n_run = n_bad = 0
+    for case, tags, origin in cases:
+        n_run += 1
+        res = duel_case_run(chk, case)
+        tags = tags + [f"duel-{case['mode']}", f"duel-rebuild-{case.get('rebuild') or 'none'}",
+                       "duel-floor-active" if res["floor_active"] else "duel-floor-inactive"]
+        if case["A"] == 1:
+            tags.append("duel-single-action")
+        chk.case({k: v for k, v in case.items()}, nontrivial=res["floor_active"],
+                 sample={"suite": "duel", "A": case["A"], "N": case["N"], "B": case["B"], "mode": case["mode"],
+                         "rebuild": case.get("rebuild")}, tags=tags)
+        if res["problems"] or res["diff"]:
+            n_bad += 1
+            small, r2 = duel_shrink(chk, case, res)
+            duel_report(chk, small, r2, origin)
+    chk.suite("dueling-head-forward", n_run, n_bad)
+
+
+def duel_mirror(fault):
+    """`DuelingDistributionalMLP.forward` re-stated with a seeded fault (self-test)"""
+    import torch.nn.functional as Fn
+
+    def f(self, x, q=True, log=False):
+        value = self.model(x)
+        advantage = self.advantage_net(x)
+        B = value.size(0)
+        value = value.view(B, 1, self.num_atoms)
+        advantage = advantage.view(B, self.num_actions, self.num_atoms)
+        if fault == "no-mean":
+            z = value + advantage
+        elif fault == "mean-over-atoms":
+            z = value + advantage - advantage.mean(2, keepdim=True)
+        else:
+            z = value + advantage - advantage.mean(1, keepdim=True)
+        if log:
+            if fault == "log-of-clamped":
+                return Fn.softmax(z, dim=-1).clamp(min=1e-3).log()
+            return Fn.log_softmax(z.view(-1, self.num_atoms), dim=-1).view(-1, self.num_actions, self.num_atoms)
+        p = Fn.softmax(z.view(-1, self.num_atoms), dim=-1).view(-1, self.num_actions, self.num_atoms)
+        if fault == "q-before-clamp" and q:
+            return torch.sum(p * self.support, dim=2)
+        p = p.clamp(min=1e-2 if fault == "floor-1e-2" else 1e-3)
+        if fault == "no-clamp":
+            p = Fn.softmax(z, dim=-1)
+        if q:
+            sup = torch.arange(self.num_atoms, dtype=p.dtype) if fault == "support-lost" else self.support
+            p = torch.sum(p * sup, dim=2)
+        return p
+    return f
+
+
+def duel_selftest(chk: Check):
+    rng = random.Random(20260927)
+    sample = [gen_duel(rng, "fed") for _ in range(40)]
+    for c in sample[:10]:
+        r = duel_case_run(chk, c, duel_mirror(None))
+        if r["problems"] or r["diff"]:
+            raise InfraError(f"C18 duel self-test: fault-free mirror of forward is flagged: {r['problems'] or r['diff']}")
+    for fault in ["no-mean", "mean-over-atoms", "log-of-clamped", "q-before-clamp", "floor-1e-2", "no-clamp",
+                  "support-lost"]:
+        hit = orc = 0
+        for c in sample:
+            r = duel_case_run(chk, c, duel_mirror(fault))
+            hit += bool(r["problems"] or r["diff"])
+            orc += bool(r["problems"])
+        if hit == 0:
+            raise InfraError(f"C18 duel self-test: seeded fault {fault!r} was not noticed")
+        chk.notes.append(f"self-test (dueling head): fault {fault} flagged on {hit}/{len(sample)} cases "
+                         f"({orc} by the property oracle)")
+
+
 # ----------------------------------------------------------------------------- check
 def pre_gate(chk: Check) -> None:
     """Regenerate lean/Gen/C51Gen.lean from the source text of the tree under test (before the Lean gate) and
@@ -859,6 +1217,12 @@ def pre_gate(chk: Check) -> None:
     common.translation_gate(chk, py2lean_c51, "Gen/C51Gen.lean", ["Gen.C51Gen", "Proofs.C51GenEq", "Props.C18"],
                             "support / delta_z of __init__, the categorical projection and loss of _dqn_loss per batch "
                             "row, and the 1-step / n-step combination, indices and priorities of learn")
+    import py2lean_dueling
+    common.translation_gate(chk, py2lean_dueling, "Gen/DuelingGen.lean",
+                            ["Gen.DuelingGen", "Proofs.DuelingGenEq", "Props.C18"],
+                            "DuelingDistributionalMLP.forward per batch row (dueling combination, soft-max, the 1e-3 "
+                            "clamp, expectation over the support, log_softmax), the widths / attributes its __init__ "
+                            "sets, and how RainbowQNetwork builds, rebuilds and calls the head")
 
 
 def run(chk: Check) -> None:
@@ -874,19 +1238,32 @@ def run(chk: Check) -> None:
                 "assignment after construction, or by real rl_hyperparam_mutations.  real suite: real networks, random "
                 "and peaked (head x10..x50) weights, arbitrary float configurations incl. the float32-overflow ones "
                 "and supports excluding 0, hyper-parameters changed after construction, tolerance 1e-5: q = "
-                "expectation of the returned distributions, greedy = arg-max of those means, mass, mean, priorities")
+                "expectation of the returned distributions, greedy = arg-max of those means, mass, mean, priorities.  "
+                "duel suite: real RainbowQNetwork heads, A 1..4, N 2..11, batch 1..3, logits fed through forward hooks "
+                "(dyadic float64: small / peaked / flat / wide) or produced by real (sharpened) float32 weights, as built "
+                "and after recreate_network / clone / head recreate / add_node / add_latent_node; non-trivial = the 1e-3 "
+                "floor is active on some atom")
     chk.assumptions = [
         "instance-level replacement of actor.forward / actor_target.forward is what _dqn_loss calls (checked: the "
         "decoy tables of the wrong network change the read-back)",
         "probe read-out: with log p = -e_k the element-wise loss equals proj[:, k] (it is the loss formula itself)",
         "all stub inputs are dyadic with <= 22 significant bits in every intermediate, so float32 = exact",
         "scalar loss under PER (importance weights) is outside the property and not compared",
+        "duel suite: exp / log values handed to the model are Python math's float64 results (relative error 1e-16); "
+        "the model is exact on them; forward hooks replace / record only the OUTPUT of head.model and "
+        "head.advantage_net, the real DuelingDistributionalMLP.forward / RainbowQNetwork.forward run unchanged",
     ]
-    chk.trusted_extra = ["torch.index_add_, floor, ceil, clamp, linspace semantics as modelled in Model/C51.lean"]
+    chk.trusted_extra = ["torch.index_add_, floor, ceil, clamp, linspace semantics as modelled in Model/C51.lean",
+                         "torch softmax / log_softmax over the last dimension = exp(x_j)/sum exp(x), x_j - log sum exp(x); "
+                         "view / broadcasting / mean(1, keepdim) semantics as modelled in namespace Duel"]
 
     cases = []
+    duel_corpus = []
     for f in sorted((ROOT / "corpus" / "C18").glob("*.json")):
         c = json.loads(f.read_text())
+        if c.get("kind") == "duel":
+            duel_corpus.append((c, f.name))
+            continue
         cases.append((c, ["corpus"], f.name))
     cases.append((overflow_probe_case(True), ["probe-overflow"], "probe"))
     cases.append((overflow_probe_case(False), ["probe-overflow"], "probe"))
@@ -947,8 +1324,10 @@ def run(chk: Check) -> None:
         report(chk, small, res2, origin)
     chk.suite("c51-stub-projection-and-learn", n_stub_run, n_stub_diff)
     chk.suite("c51-real-networks-oracle", n_real_run, n_real_bad)
+    run_duel(chk, duel_corpus)
     if not quick:
         selftest(chk)
+        duel_selftest(chk)
 
 
 # ----------------------------------------------------------------------------- self-test
@@ -1043,6 +1422,17 @@ def replay(chk: Check, path: str) -> int:
     c = c.get("replay", c)
     case = {k: v for k, v in c.items() if k not in ("impl", "model", "oracle_problems", "correspondence",
                                                     "theorems", "origin")}
+    if case.get("kind") == "duel":
+        case = {k: v for k, v in case.items() if k != "diff"}
+        res = duel_case_run(chk, case)
+        print(json.dumps({"oracle_problems": res["problems"], "diff": res["diff"]}, indent=1))
+        if res["problems"]:
+            print(f"VIOLATION property=C18 replay={path}")
+            return 1
+        if res["diff"]:
+            print(f"VIOLATION property=C18 replay={path} no-failing-input-found")
+            return 1
+        return 0
     if case.get("kind") == "real":
         problems, raised = real_case(case)
         print(json.dumps({"oracle_problems": problems, "raised": raised}, indent=1))
